@@ -478,7 +478,9 @@ impl Allocator for Arena {
     #[cfg(feature = "tracing")]
     tracing::debug!("discard {size} bytes");
 
-    self.header_mut().discarded += size;
+    // saturate: the counter must never wrap around (or panic in an overflow-checked build)
+    let header = self.header_mut();
+    header.discarded = header.discarded.saturating_add(size);
   }
 
   #[inline]
@@ -1307,9 +1309,10 @@ impl Arena {
 
       #[cfg(feature = "tracing")]
       tracing::debug!("discard {} bytes", segment_node.data_size);
-      self.header_mut().discarded += segment_node.data_size;
+      let header = self.header_mut();
+      header.discarded = header.discarded.saturating_add(segment_node.data_size);
 
-      discarded += segment_node.data_size;
+      discarded = discarded.saturating_add(segment_node.data_size);
     }
   }
 
